@@ -378,7 +378,7 @@ impl Monitor for C08 {
         let migrate_at = if h.idx % 3 == 1 { h.rng.range(5, 60) as usize } else { usize::MAX };
         for i in 0..n {
             if i == migrate_at {
-                let v = *h.rng.pick(&["0.13.4", "1.1.2", "1.0.0", "0.9.1", "2.0.0"]);
+                let v = *h.rng.pick(&["0.13.4", "1.1.2", "1.0.0", "0.9.1", "2.0.0", "0.7.0", "0.2.3", "0.16.0"]);
                 cw2::set_contract_version(&mut p.w.store, "crates.io:cw1-subkeys", v).unwrap();
                 let r = p.w.tx(|d, e| cw1_subkeys::contract::migrate(d, e, cosmwasm_std::Empty {}));
                 h.out.evaluations += 1;
